@@ -867,6 +867,10 @@ func (rn *Runner) Run() {
 		rn.srv.Go(sv)
 		t := refsmtp.NewTrackConnID(cl, r, len(rn.tracks)+1)
 		t.WFail, t.Addr = wfail, addr
+		t.Timeout = LongTimeout
+		if rn.stall {
+			t.Timeout = StallTimeout
+		}
 		rn.tracks = append(rn.tracks, t)
 		return t, nil
 	}
